@@ -192,6 +192,17 @@ pub fn run(env: &Env, run: &Run) -> (Stats, Coverage) {
             classify(&exp, &l, st, env, class);
         }
     }));
+    // diverse strings: up to 64 different accepted characters of one 64-block, per class
+    for class in [Class::Identifier, Class::Freeform] {
+        let stairs = crate::props::rules::block_staircases(env, class);
+        st.merge(run_family(&stairs, |s, st| {
+            let l: Vec<u32> = s.chars().map(|c| c as u32).collect();
+            for class in [Class::Identifier, Class::Freeform] {
+                let exp = check_std(env, class, &l, s, st);
+                classify(&exp, &l, st, env, class);
+            }
+        }));
+    }
     // user-supplied classes: all assignments of the 7 values to k symbols x all labels
     let k = run.tier.pick(4usize, 5usize);
     let ln = run.tier.pick(4usize, 5usize);
